@@ -99,7 +99,7 @@ VARIANTS = ['one-chain', 'two-replicas', 'chain+cov', 'cov-only']
 
 
 def grid_sizes(tier):
-    return (200, 20) if tier == 'quick' else (2000, 120)
+    return (200, 20) if tier == 'quick' else (10000, 500)
 
 
 def special_cases(tier):
